@@ -8,9 +8,11 @@ CONSTANT MaxLen
 R == INSTANCE Rpc WITH MaxCalls <- MaxLen, calls <- 0, handler <- 0, seen <- 0
 ArgClasses == {"zero", "typical", "edge"}
 Pairs == {<<m, o>> \in R!Methods \X R!Outcomes : R!Possible(m, o)}
-One(p, a) == [m |-> p[1], o |-> p[2], args |-> a, observes |-> R!Observes(p[1], p[2]), kind |-> R!Kind(p[1], p[2]),
-              frames |-> R!ReplyFrames(p[1], p[2]), inherited |-> R!Inherited(p[1])]
-Singles == {<<One(p, a)>> : p \in Pairs, a \in ArgClasses}
+OneF(p, a, f) == [m |-> p[1], o |-> p[2], args |-> a, observes |-> R!ObservesF(p[1], p[2], f), kind |-> R!Kind(p[1], p[2]),
+              frames |-> R!ReplyFrames(p[1], p[2]), inherited |-> R!Inherited(p[1]), fault |-> f]
+One(p, a) == OneF(p, a, "none")
+\* every (method, outcome) once more with the connection dropped between the handler and the response
+Singles == {<<One(p, a)>> : p \in Pairs, a \in ArgClasses} \cup {<<OneF(p, "typical", "drop-after-handler")>> : p \in Pairs}
 Seqs == IF MaxLen < 2 THEN {} ELSE {<<One(p, "typical"), One(q, "typical")>> : p \in Pairs, q \in Pairs}
 Cases == Singles \cup Seqs
 ASSUME JsonSerialize("rpc_cases.json", SetToSeq(Cases))
